@@ -87,19 +87,22 @@ def search(payload):
              ([[(0, 0), (0, 0), (0, 10)], [(10, 10), (10, 0), (10, 0)]], 0.1), ([[(0, 0), (0, 0), (5, 5)]], 1),
              # nearly flat curves with a very small flatness (a floor on `flat` would leave them unsplit)
              ([[(0, 0), (0, 0), (1, F(4, 10000))], [(2, F(4, 10000)), (3, 0), (3, 0)]], 0.00003),
-             ([[(0, 0), (0, 0), (1, F(3, 1000000))], [(2, F(3, 1000000)), (3, 0), (3, 0)]], 0.0000002)]
+             ([[(0, 0), (0, 0), (1, F(3, 1000000))], [(2, F(3, 1000000)), (3, 0), (3, 0)]], 0.0000002),
+             # hook-shaped pieces: halving does not halve the deviation
+             ([[(8, 4), (8, 4), (3, -6)], [(1, -8), (1, -5), (1, -5)]], 1.55), ([[(0, 0), (0, 0), (1, 1)], [(-2, -1), (3, 0), (3, 0)]], 0.1),
+             ([[(8, 4), (8, 4), (3, -6)], [(1, -8), (1, -5), (1, -5)], [(2, 2), (7, 7), (7, 7)]], 1.55)]
     tried = distinct = 0
     cases = list(fixed)
-    for _ in range(250):
+    for _ in range(450):
         n = rnd.randint(1, 4)
         nodes = [[(rnd.randint(-8, 8), rnd.randint(-8, 8)) for _ in range(3)] for _ in range(n)]
         if rnd.random() < 0.2:
             nodes[rnd.randrange(n)] = [nodes[0][1]] * 3
-        cases.append((nodes, rnd.choice([0.05, 0.3, 1, 4])))
+        cases.append((nodes, rnd.choice([0.05, 0.3, 1, 4, 1.55, 0.77, 2.1])))
     for nodes, flat in cases:
         tried += 1
         o, e = check(nodes, flat)
         if o:
             return {'found': True, 'input': [nodes, flat], 'observed': o, 'expected': e, 'tried': tried}
         distinct += 1
-    return {'found': False, 'tried': tried, 'distinct': distinct, 'bound': '6 fixed + 250 seeded random node lists (1..4 nodes, integer control points in [-8,8], flat in {0.05,0.3,1,4}; two nearly flat curves with flat 3e-5 and 2e-7), growth cap 20000 nodes'}
+    return {'found': False, 'tried': tried, 'distinct': distinct, 'bound': '9 fixed + 450 seeded random node lists (1..4 nodes, integer control points in [-8,8], flat in {0.05,0.3,1,4}; two nearly flat curves with flat 3e-5 and 2e-7), growth cap 20000 nodes'}
